@@ -231,7 +231,12 @@ class Printer:
                     self.stack.pop()
                     if it.macro:
                         # same helper, but written so that Rally's textual pre-assembly does not apply and the Jinja macro runs
-                        out.append('%s  {{rally.collect(parts="%s/*.json")}}%s' % (pad, it.dirname, sep))
+                        # (without blanks inside the braces - pre-assembled all the same since 851d1bd - or with the other kind of string quotes Jinja knows)
+                        if len(self.files) % 2:
+                            out.append("%s  {{ rally.collect(parts='%s/*.json') }}%s" % (pad, it.dirname, sep))
+                            self.single_quoted_collect = True
+                        else:
+                            out.append('%s  {{rally.collect(parts="%s/*.json")}}%s' % (pad, it.dirname, sep))
                     elif i > 0 and isinstance(node[i - 1], Coll) and not node[i - 1].macro:
                         # two collects in a row are written on ONE line
                         out[-1] += ' {{ rally.collect(parts="%s/*.json") }}%s' % (it.dirname, sep)
